@@ -40,10 +40,28 @@ std::string tf(bool b) { return b ? "true" : "false"; }
 
 struct Ctx { const char* fn; int v; const fam::Bytes& img; std::string who() const { return std::string(fn) + " variant " + std::to_string(v); } };
 
-template <typename F> auto decode(const Ctx& c, F f) -> decltype(f(c.img.data(), c.img.size())) {
+// the reader itself: every strict prefix of a valid image is outside the layout and must be rejected with std::runtime_error (each prefix is copied
+// into an exact-size heap block so that ASan sees any read past its end). All prefixes of small images, a case-derived sample of larger ones.
+template <typename F> void prefixes_rejected(const Ctx& c, F f) {
+  const size_t n = c.img.size(); std::vector<size_t> cuts;
+  if (n <= 96) for (size_t i = 0; i < n; ++i) cuts.push_back(i);
+  else { for (size_t i = 0; i < 24; ++i) cuts.push_back(i); for (size_t j = 0; j < 16; ++j) cuts.push_back(24 + vf::mix64(n * 131 + j) % (n - 24)); cuts.push_back(n - 1); }
+  for (size_t k : cuts) {
+    uint8_t* blk = static_cast<uint8_t*>(malloc(k ? k : 1)); std::memcpy(blk, c.img.data(), k);
+    bool threw = false;
+    try { (void)f(blk, k); } catch (const std::runtime_error&) { threw = true; } catch (...) { free(blk); throw; }
+    free(blk);
+    VF_CHECK(threw, "reader-accepts-prefix", c.who() << ": the independent reader accepts the first " << k << " of " << n << " bytes as a complete image  image[" << n << "]=" << hex(c.img));
+    vf::count("prefixes-rejected");
+  }
+}
+template <typename F> auto decode(const Ctx& c, F f, bool prefixes = true) -> decltype(f(c.img.data(), c.img.size())) {
   vf::count("checks");
-  try { return f(c.img.data(), c.img.size()); }
-  catch (const std::runtime_error& e) {
+  try {
+    auto im = f(c.img.data(), c.img.size());
+    if (prefixes) prefixes_rejected(c, f);
+    return im;
+  } catch (const std::runtime_error& e) {
     vf::fail("layout-violation", c.who() + ": the independent reader rejects the image: " + e.what() + "  image[" + std::to_string(c.img.size()) + "]=" + hex(c.img));
   }
 }
@@ -107,7 +125,8 @@ void chk_aod(const Ctx& c, fam::AodObj& o) {
 
 // ---------------------------------------------------------------- HLL
 void chk_hll(const Ctx& c, fam::HllObj& o) {
-  vf::HllImage im = decode(c, vf::parse_hll_image); const auto& sk = o.sk;
+  // shared reader (ignores the zero aux padding of updatable images): no prefix self-test
+  vf::HllImage im = decode(c, vf::parse_hll_image, false); const auto& sk = o.sk;
   {
     // the shared reader leaves the aux area of an updatable HLL_4 image without exceptions unaccounted: the published updatable form reserves
     // 4 << LG_AUX_ARR_INTS[lg_k] zero bytes for it (published table below)
@@ -543,6 +562,12 @@ void prop(const Case& cs) {
       case fam::F_QS_F: presort<OQsF>(*obj, pre); break; case fam::F_QS_S: presort<OQsS>(*obj, pre); break;
       default: break;
     }
+    if (f == fam::F_HLL && (pre & 2)) {
+      // a few keys whose register value is >= 15 (found with the reference hash): HLL_4 stores them as aux-table exceptions
+      auto& sk = static_cast<fam::HllObj&>(*obj).sk; const auto& pool = vf::high_pool().keys; uint64_t r = static_cast<uint64_t>(cs.get("rnd", 1));
+      for (uint64_t i = 0, cnt = 1 + r % 5; i < cnt && !pool.empty(); ++i) sk.update(pool[vf::mix64(r + i) % pool.size()].first);
+      vf::label("pre:hll-high-values");
+    }
     fam::Bytes img = obj->bytes(0, v);
     Ctx c{fn, v, img};
     switch (f) {
@@ -580,7 +605,7 @@ void prop(const Case& cs) {
 // small states whose images have their own layout (single item, raw items, exact mode, LIST/SET coupons, warm-up, buffer-only) and fewer empties
 rc::Gen<Case> gen() {
   using namespace vf;
-  auto nGen = rc::gen::weightedOneOf<int64_t>({{1, range(0, 1)}, {2, rc::gen::just<int64_t>(1)}, {3, range(2, 12)}, {2, range(13, 60)}, {3, range(61, 300)}, {3, range(300, 3500)}});
+  auto nGen = rc::gen::weightedOneOf<int64_t>({{2, rc::gen::just<int64_t>(0)}, {3, rc::gen::just<int64_t>(1)}, {3, range(2, 12)}, {2, range(13, 60)}, {3, range(61, 300)}, {3, range(300, 3500)}});
   auto mk = [nGen](const char* name) {
     std::string nm(name);
     return rc::gen::map(rc::gen::tuple(nGen, range(0, 7), range(0, 1 << 20), range(0, 63)), [nm](std::tuple<int64_t, int64_t, int64_t, int64_t> t) { return Op{nm, {std::get<0>(t), std::get<1>(t), std::get<2>(t), std::get<3>(t)}}; });
